@@ -21,7 +21,7 @@ def traffic(rng, ops, nb, ticks, *, cfg_bevs=(), bursts=None, grouped=(), joinle
             ops.append({"a": "loop"})
         if cfg_bevs and rng.random() < 0.3:
             b = rng.choice(cfg_bevs); d = rng.randrange(2)
-            k = rng.choice((1, 7, 100, 333, bursts[b][d] // 2, bursts[b][d]))
+            k = rng.choice((1, 7, 100, 333, bursts[b][d] // 2, bursts[b][d], bursts[b][d] * 3))
             ops.append({"a": "dec", "b": b, "d": d, "k": k})
             if rng.random() < 0.5:      # manual refill of part of it (never above the burst: C21 known finding)
                 ops.append({"a": "dec", "b": b, "d": d, "k": -rng.randrange(1, k + 1)})
@@ -73,6 +73,47 @@ def scenario(rng, kind):
     return {"cfg": {"tickms": TICK, "offms": rng.choice((0, 1, 30, 50, 99)), "nb": nb}, "h": ops}
 
 
+def gset_scenario(rng, variant):
+    """bufferevent_rate_limit_group_set_cfg on a live group.
+    idle: big burst, idle until the group bucket is full, set_cfg to a much smaller rate/burst, members join, traffic.
+    busy: members and traffic first, set_cfg (smaller or larger) in the middle, more traffic."""
+    ops = []
+    if variant == "idle":
+        rr, wr = rng.choice((5000, 8000)), rng.choice((4000, 6000))
+        ops.append({"a": "group", "rr": rr, "rb": rr * 10, "wr": wr, "wb": wr * 10, "ms": rng.choice((1, 64, 200))})
+        for _ in range(rng.randrange(10, 13)):
+            ops += [{"a": "loop"}, {"a": "adv", "ms": TICK}]
+        nr, nw = rng.choice((300, 500)), rng.choice((400, 800))
+        ops.append({"a": "gsetcfg", "rr": nr, "rb": nr * rng.choice((1, 4)), "wr": nw, "wb": nw * rng.choice((1, 2))})
+        ops += [{"a": "join", "b": 1}, {"a": "join", "b": 2}]
+        traffic(rng, ops, 2, rng.randrange(5, 8))
+    else:
+        rr, wr = rng.choice((1000, 3000)), rng.choice((1000, 2500))
+        ops.append({"a": "group", "rr": rr, "rb": rr * 3, "wr": wr, "wb": wr * 2, "ms": rng.choice((1, 64, 200))})
+        ops += [{"a": "join", "b": 1}, {"a": "join", "b": 2}]
+        traffic(rng, ops, 2, rng.randrange(3, 6))
+        f = rng.choice((4, 2, 1))           # smaller or larger configuration
+        nr, nw = (rr // f, wr // f) if rng.random() < 0.7 else (rr * 2, wr * 2)
+        ops.append({"a": "gsetcfg", "rr": nr, "rb": nr * rng.choice((1, 2)), "wr": nw, "wb": nw * rng.choice((1, 3))})
+        traffic(rng, ops, 2, rng.randrange(4, 8))
+    return {"cfg": {"tickms": TICK, "offms": rng.choice((0, 30, 99)), "nb": 2}, "h": ops}
+
+
+def debt_scenario(rng, rfeed=1):
+    """a manual decrement of several ticks' worth: the direction must resume within debt/rate + 1 ticks (progress clause)"""
+    rr, wr = rng.choice((500, 1000)), rng.choice((700, 1000))
+    ops = [{"a": "setcfg", "b": 1, "rr": rr, "rb": rr * rng.choice((1, 2)), "wr": wr, "wb": wr * rng.choice((1, 2))}, {"a": "loop"}]
+    d = rng.randrange(2)
+    ops.append({"a": "dec", "b": 1, "d": 1, "k": wr * rng.choice((3, 4)) + rng.choice((0, 1, wr // 2))})
+    if rng.random() < 0.5:
+        ops.append({"a": "dec", "b": 1, "d": 0, "k": rr * rng.choice((2, 5)) + d})
+    for _ in range(12):
+        ops += [{"a": "loop"}, {"a": "adv", "ms": TICK}]
+    ops.append({"a": "loop"})
+    # rfeed = 0: write traffic only (the read side then never re-arms the shared refill timer)
+    return {"cfg": {"tickms": TICK, "offms": rng.choice((0, 30, 99)), "nb": 1, "rfeed": rfeed}, "h": ops}
+
+
 def known_trigger():
     """max_single_read=100 with a per-bufferevent cfg of rate=burst=50000 (DESIGN section 8-8; fixed in b9ad8f0):
     part of the general corpus"""
@@ -118,15 +159,15 @@ def run(tier, seed):
     # ---- 1. the bounded model
     if q:
         c = {"Bevs": {1, 2}, "MaxTick": 2, "Rates": {2}, "Bursts": {3}, "Singles": {2},
-             "GRate": 2, "GBurst": 3, "GMinShare": 1, "MaxOps": 2}
+             "GRate": 2, "GBurst": 3, "GMinShare": 1, "MaxOps": 2, "GCfgs": {16 * 1 + 1}}
     else:
         c = {"Bevs": {1, 2}, "MaxTick": 2, "Rates": {1, 2}, "Bursts": {2, 3}, "Singles": {1, 3},
-             "GRate": 2, "GBurst": 3, "GMinShare": 1, "MaxOps": 2}
+             "GRate": 2, "GBurst": 3, "GMinShare": 1, "MaxOps": 2, "GCfgs": {16 * 1 + 1, 16 * 3 + 4}}
     invs = ["TypeOK", "WindowBound", "GroupWindowBound", "PerOpMax", "NoStall", "LevelBound", "GroupDeficitBound"]
     cfg = vkit.write_cfg("C22_mc", c, invariants=invs)
     res = vkit.tlc("RateLimit", cfg, want_prints=False, coverage=True, workers=4, timeout=1100)
     chk.add_tlc("C22_mc", res)
-    chk.check_coverage(res, ["TickAdvance", "ManualDecrement", "Join", "Leave"], "C22_mc")
+    chk.check_coverage(res, ["TickAdvance", "ManualDecrement", "Join", "Leave", "GroupSetCfg"], "C22_mc")
     if not q:   # a second group shape: min_share larger than an even share
         c2 = dict(c, GRate=3, GBurst=3, GMinShare=2, Singles={2, 4}, Rates={2}, Bursts={3})
         res2 = vkit.tlc("RateLimit", vkit.write_cfg("C22_mc2", c2, invariants=invs), want_prints=False, workers=4, timeout=1100)
@@ -135,7 +176,9 @@ def run(tier, seed):
 
     # ---- 2. traces of the real library
     kinds = ["single", "group", "both"]
-    scen = [known_trigger()] + [scenario(rng, kinds[i % 3]) for i in range(18 if q else 150)]
+    scen = [known_trigger()] + [scenario(rng, kinds[i % 3]) for i in range(15 if q else 150)]
+    scen += [gset_scenario(rng, v) for v in (("idle", "idle", "busy", "busy") if q else ("idle", "busy") * 15)]
+    scen += [debt_scenario(rng, i % 2) for i in range(4 if q else 16)]
     outs = vkit.run_driver(exe, scen, timeout=300)
     for s, o in zip(scen, outs):
         if o is None or "crash" in o:
@@ -171,12 +214,15 @@ def run(tier, seed):
 
     chk.cov["rule"] = ("TLC explores the bounded RateLimit model exhaustively; each execution of the real library is validated event by "
                        "event by TLC (RateLimit_Trace): per-operation byte counts vs max_single and min(max_single, bucket, share), window "
-                       "sums vs burst + k*rate per bufferevent and per group, and after every step the own bucket levels and the reported "
-                       "per-operation budget. non-trivial = executions with at least two I/O operations.")
+                       "sums vs burst + k*rate per bufferevent and per group, and after every step the own bucket levels, the reported "
+                       "per-operation budget, the group bucket levels and progress. non-trivial = executions with at least two I/O operations.")
     chk.assumptions += ["virtual monotonic and wall clock via link-time wrapping; tick = 100 ms; all configurations share the tick length",
                         "the group bucket level and suspended flag are read from the library after every step (the group refill timer is "
                         "internal); an I/O operation of a group member may use the share after one more group refill",
                         "per-bufferevent configurations are set before traffic starts; manual refills never lift a bucket above its burst "
                         "(open C21 finding refill-level-above-burst)",
-                        "'makes progress within one tick' is decided on the model (NoStall) and bound through the reported budget only"]
+                        "'makes progress within one tick' is decided on the model (NoStall); on traces a bufferevent outside a group with a positive "
+                        "bucket must move bytes within 3 ticks (refill timer + re-arming by the other direction allowed for)",
+                        "group windows are accounted against the configuration in force from the tick it was installed; windows starting in that "
+                        "tick get one extra tick's rate (the timer's refill for that tick may arrive after the clip)"]
     return chk.finish()
